@@ -157,6 +157,50 @@ func (c *Ctx) checkConfigWriters(rule string) {
 		}
 		L.Bad(rule, name, "writes "+x.what, x.pos, "an operation other than the setter overwrites the container's "+x.what+": the setting chosen by the caller is lost for every later operation on this container")
 	}
-	L.Trivial(rule, "package align", "stores scanned", "-", fmt.Sprintf("%d store(s) into existing containers, %d into containers allocated by the storing function", n, nFresh))
+	// an operation that re-detects the alphabet of the container it works on changes the setting
+	// just as a store would (a protein alignment whose remaining rows happen to be spelt with
+	// nucleotide letters becomes a nucleotide alignment): only translation, which changes the
+	// residues themselves, may do so
+	allowedCallers := map[string]bool{"align.(*seqbag).Translate": true, "align.(*seqbag).SetAlphabet": true, "align.(*seqbag).AutoAlphabet": true}
+	nCalls := 0
+	for _, fn := range c.P.SrcFuncs() {
+		if fn.Pkg == nil || !strings.HasSuffix(fn.Pkg.Pkg.Path(), "/align") || fn.Signature.Recv() == nil || len(fn.Params) == 0 {
+			continue
+		}
+		recv := fn.Params[0]
+		allInstrs(fn, func(in ssa.Instruction) {
+			cc := callOf(in)
+			if cc == nil {
+				return
+			}
+			name := ""
+			var on ssa.Value
+			if cc.IsInvoke() {
+				name, on = cc.Method.Name(), cc.Value
+			} else if g := cc.StaticCallee(); g != nil && g.Signature.Recv() != nil && len(cc.Args) > 0 {
+				name, on = g.Name(), cc.Args[0]
+			}
+			if name != "AutoAlphabet" && name != "SetAlphabet" {
+				return
+			}
+			// on the receiver itself or on its embedded container
+			own := isRecvValue(on, recv)
+			if fa, ok := on.(*ssa.FieldAddr); ok && isRecvValue(fa.X, recv) {
+				own = true
+			}
+			if mi, ok := on.(*ssa.MakeInterface); ok && isRecvValue(mi.X, recv) {
+				own = true
+			}
+			if !own {
+				return
+			}
+			nCalls++
+			fname := c.P.FuncName(fn)
+			L.Check(allowedCallers[fname], rule, fname, "calls "+name+" on its own container", c.P.Pos(in.Pos()),
+				"translation changes the residues and re-detects their alphabet",
+				"an operation re-detects or resets the alphabet of the container it works on: the alphabet the caller chose (or that was detected when the data were read) is replaced by a guess from the rows that remain")
+		})
+	}
+	L.Trivial(rule, "package align", "stores scanned", "-", fmt.Sprintf("%d store(s) into existing containers, %d into containers allocated by the storing function, %d alphabet re-detection(s) on the own container", n, nFresh, nCalls))
 	L.Floor(rule, 3, "SetAlphabet (2 stores), AutoAlphabet (3), IgnoreIdentical (2) on the pinned tree")
 }
